@@ -132,6 +132,11 @@ def write_skeleton(flags):
     os.makedirs(os.path.dirname(path), exist_ok=True)
     if not os.path.exists(path) or open(path).read() != text:
         open(path, "w").write(text)
+        for ext in (".vo", ".vos", ".vok", ".glob"):      # never trust a same-second timestamp
+            try:
+                os.remove(path[:-2] + ext)
+            except OSError:
+                pass
 
 
 # ------------------------------------------------------------ std-library sessions
@@ -362,6 +367,8 @@ def run(chk):
     chk.notes += ["skeleton translator: " + n for n in notes]
     proved = chk.prove("Props.C06", THEOREMS,
                        ["theories/Props/C06.vo", "theories/Session/Toy.vo"])
+    if not proved:
+        chk.notes.append("proof side: " + str(getattr(chk, "proof_failure", "?"))[:1500])
     chk.trusted += [
         "model Session/Resolver.v, Session/Context.v: hand port of numbat/src/resolver.rs and of the control flow of "
         "lib.rs Context::interpret_with_settings; stage functions are universally quantified",
